@@ -244,7 +244,7 @@ theorem load_of_save_stream_with (arr : List Block → List Block) (harr : arr [
       exact this
     · rw [hallOther k g hn] at hog
       exact hobj ((k, g), o) (Objects_mem_of_get d.objects (k, g) o hog) _ _ _
-  obtain ⟨L, hL, l1, l2, l3, l4, l5, l6⟩ := objectPass_good arr harr out d.version d.binaryMark table
+  obtain ⟨L, hL, l1, l2, l3, l4, l5, l6, _⟩ := objectPass_good arr harr out d.version d.binaryMark table
     (streamTrailerRead [] d) (bodyOf [] d).length (objectsWithXref d) hgood
   refine ⟨L, by rw [hload]; exact hL, l1, l2, l3, l4, ?_, ?_⟩
   · rw [l5]
